@@ -847,7 +847,8 @@ Definition handle_complete_workflow (s : state) (id : nat) (retry : Z) : hres :=
 
 (* ---- CancelWorkflow ---- *)
 Definition incomplete_stages (s : state) : list nat :=
-  filter (fun j => match get_stage s j with Some u => negb (is_complete (s_status u)) && is_top_level u | None => false end)
+  (* every unfinished stage, synthetic children included *)
+  filter (fun j => match get_stage s j with Some u => negb (is_complete (s_status u)) | None => false end)
          (seqn (length (w_stages s))).
 
 Definition handle_cancel_workflow (s : state) (id : nat) : hres :=
